@@ -434,6 +434,12 @@ class Connection(ExportImport):
                 del obj._p_oid
                 if obj._p_changed:
                     obj._p_changed = False
+            elif oid in self._creating:
+                # A new object that was already stored by the commit that
+                # is being aborted.  _invalidate_creating() disowns it;
+                # invalidating it first would turn it into a ghost that no
+                # storage can load: it would lose its state for good.
+                pass
             else:
                 # Note: If we invalidate a non-ghostifiable object
                 # (i.e. a persistent class), the object will
